@@ -111,7 +111,7 @@ impl PollMon {
     ) {
         let pre = &self.obs[c as usize];
         let mut bad = |sig: &str, detail: String, rep: &mut Report| {
-            rep.violation(
+            crate::viol!(rep, 
                 format!("C14:{}", sig),
                 format!("{} on channel {} reported {:?}: {}", what, c, r, detail),
                 self.hj(path, json!(detail), r.json()),
@@ -119,7 +119,7 @@ impl PollMon {
         };
         if r.ch != c {
             bad("report-on-wrong-channel", format!("triggering call was on channel {}", c), rep);
-            rep.violation(
+            crate::viol!(rep, 
                 "C15:polling:report-on-wrong-channel",
                 format!("{} on channel {} reported {:?}", what, c, r),
                 self.hj(path, json!(c), json!(r.ch)),
@@ -199,7 +199,7 @@ impl PollMon {
                     PollingParameterNumberMessageScanner::new(dur(t))
                 });
                 if r.is_none() || fresh != Some(self.real) {
-                    rep.violation(
+                    crate::viol!(rep, 
                         "C17:polling:reset-not-equal-new",
                         "after reset() the scanner does not compare equal to a new one with the same timeout".to_string(),
                         self.hj(path, json!("== new(timeout)"), json!(format!("{:?}", self.real).chars().take(300).collect::<String>())),
@@ -223,7 +223,7 @@ impl PollMon {
         let got = api("PollingParameterNumberMessageScanner::feed", || real.feed(&m));
         rep.count("poll_feeds", 1);
         let Some(got) = got else {
-            rep.violation(
+            crate::viol!(rep, 
                 "C14:panic:feed",
                 format!("feed({}) panicked", ev.render()),
                 self.hj(path, json!("no panic"), json!("panic")),
@@ -247,7 +247,7 @@ impl PollMon {
             set_mock_time(self.now);
             rep.count("poll_p5_time_shifted_feeds", 1);
             if got2 != Some(got) {
-                rep.violation(
+                crate::viol!(rep, 
                     "C13:feed-result-depends-on-time",
                     format!(
                         "feed({}) returned {:?} at t={} but {:?} when the same scanner state was fed {} ns later",
@@ -265,12 +265,12 @@ impl PollMon {
             // system message: nothing, no effect
             rep.count("poll_system_messages", 1);
             if outs != [None, None] || self.real != before {
-                rep.violation(
+                crate::viol!(rep, 
                     "C15:polling:system-message-not-ignored",
                     format!("system message {} returned {:?}; state changed: {}", ev.render(), outs, self.real != before),
                     self.hj(path, json!("[None, None], equal state"), json!(format!("{:?}", outs))),
                 );
-                rep.violation(
+                crate::viol!(rep, 
                     "C16:polling:not-transparent",
                     format!("system message {} returned {:?}; state changed: {}", ev.render(), outs, self.real != before),
                     self.hj(path, json!("[None, None], equal state"), json!(format!("{:?}", outs))),
@@ -284,7 +284,7 @@ impl PollMon {
         if !contributing {
             rep.count("poll_noncontributing_feeds", 1);
             if outs != [None, None] || self.real != before {
-                rep.violation(
+                crate::viol!(rep, 
                     "C16:polling:not-transparent",
                     format!("non-contributing message {} returned {:?}; state changed: {}", ev.render(), outs, self.real != before),
                     self.hj(path, json!("[None, None], equal state"), json!(format!("{:?}", outs))),
@@ -308,7 +308,7 @@ impl PollMon {
         }
         // slot discipline
         match (&outs[0], &outs[1]) {
-            (None, Some(_)) => rep.violation(
+            (None, Some(_)) => crate::viol!(rep, 
                 "C14:second-message-without-first",
                 format!("feed({}) returned {:?}", ev.render(), outs),
                 self.hj(path, json!("never [None, Some]"), json!(format!("{:?}", outs))),
@@ -317,7 +317,7 @@ impl PollMon {
                 rep.count("poll_double_reports", 1);
                 let incdec = matches!(cur, Some((96 | 97, _)));
                 if !(incdec && x.dt == 0 && !x.is14 && y.dt != 0) {
-                    rep.violation(
+                    crate::viol!(rep, 
                         "C14:two-messages-not-justified",
                         format!("feed({}) returned two messages {:?}", ev.render(), outs),
                         self.hj(path, json!("two messages only for inc/dec after a pending MSB: data entry first, then inc/dec"), json!(format!("{:?}", outs))),
@@ -331,7 +331,7 @@ impl PollMon {
         if contributing {
             if let Some(p) = pre.pending() {
                 if six_status == Some(0) {
-                    rep.violation(
+                    crate::viol!(rep, 
                         "C14:data-entry-lost",
                         format!(
                             "controller-6 value {} (received with a complete number, never reported) is still unreported after the contributing message {}",
@@ -387,7 +387,7 @@ impl PollMon {
         let got = api("PollingParameterNumberMessageScanner::poll", || real.poll(ch(c)));
         rep.count("poll_polls", 1);
         let Some(got) = got else {
-            rep.violation(
+            crate::viol!(rep, 
                 "C13:panic:poll",
                 format!("poll({}) panicked", c),
                 self.hj(path, json!("no panic"), json!("panic")),
@@ -404,21 +404,21 @@ impl PollMon {
                 let mut dummy = false;
                 // C13-P1
                 match pending {
-                    None => rep.violation(
+                    None => crate::viol!(rep, 
                         "C13:poll-reports-without-pending-msb",
                         format!("poll({}) returned {:?} although no data entry MSB is pending", c, r),
                         self.hj(path, json!("None"), r.json()),
                     ),
                     Some(p) => {
                         if !self.expired(p.t) {
-                            rep.violation(
+                            crate::viol!(rep, 
                                 "C13:poll-reports-before-timeout",
                                 format!("poll({}) returned {:?} only {} ns after the MSB was fed (timeout {} ns)", c, r, self.now - p.t, self.timeout),
                                 self.hj(path, json!("None"), r.json()),
                             );
                         }
                         if r.dt != 0 || r.is14 || r.value != p.val as u16 {
-                            rep.violation(
+                            crate::viol!(rep, 
                                 "C13:poll-reports-wrong-message",
                                 format!("poll({}) returned {:?}, the pending MSB is {}", c, r, p.val),
                                 self.hj(path, json!(format!("7-bit data entry {}", p.val)), r.json()),
@@ -427,7 +427,7 @@ impl PollMon {
                     }
                 }
                 if r.dt != 0 || r.is14 {
-                    rep.violation(
+                    crate::viol!(rep, 
                         "C14:poll-reports-non-7bit",
                         format!("poll({}) returned {:?}", c, r),
                         self.hj(path, json!("7-bit data entry or nothing"), r.json()),
@@ -443,12 +443,12 @@ impl PollMon {
                 if let Some(p) = pending {
                     if self.expired(p.t) {
                         rep.count("poll_missed", 1);
-                        rep.violation(
+                        crate::viol!(rep, 
                             "C13:poll-misses-expired-msb",
                             format!("poll({}) returned nothing although data entry MSB {} has been pending for {} ns (timeout {} ns)", c, p.val, self.now - p.t, self.timeout),
                             self.hj(path, json!(format!("7-bit data entry {}", p.val)), json!("None")),
                         );
-                        rep.violation(
+                        crate::viol!(rep, 
                             "C14:data-entry-lost:poll",
                             format!("controller-6 value {} not reported by the first poll after the timeout", p.val),
                             self.hj(path, json!(format!("7-bit data entry {}", p.val)), json!("None")),
@@ -463,7 +463,7 @@ impl PollMon {
                     if !self.expired(t) {
                         rep.count("poll_early_polls", 1);
                         if self.real != before {
-                            rep.violation(
+                            crate::viol!(rep, 
                                 "C13:early-poll-has-effect",
                                 format!("poll({}) {} ns after the most recent value byte (timeout {} ns) returned nothing but changed the scanner state", c, self.now - t, self.timeout),
                                 self.hj(path, json!("equal state"), json!("state changed")),
